@@ -172,6 +172,10 @@ def build(d, g, shared=None):
         # one of this container's own children is also installed somewhere else in the tree (descriptor nodes with
         # share id xid): optionally rebuild the container first through copy() / zero() / + (explicit-pairs forms)
         via = d.get("xvia", "")
+        if d.get("xpre"):
+            # the container was used on its own first: a fill of weight 0 runs the cross-reference check (and sets
+            # its flags) without changing any content
+            out.fill({"x": 0.0, "y": 0.0, "s": 1.0, "e": 0.0, "pi": 0.0, "c": "a", "fa": "", "fm": ""}, 0.0)
         if via == "copy":
             out = out.copy()
         elif via == "zero":
